@@ -85,6 +85,7 @@ func sigString(t types.Type, q types.Qualifier) string {
 }
 
 func runC39(c *eng.Ctx) {
+	defer runC39Hash(c)
 	p := c.P
 	variants := map[string]*eng.Prog{"stringlabels": p}
 	for _, tag := range []string{"slicelabels", "dedupelabels"} {
